@@ -114,16 +114,24 @@ def handleTree (j : Json) : R Json := do
       ("closed", Json.bool (isClosed || !recursive))]
   else if call == "parent" then
     let m := (parent cfg ps t0 me).2.2
-    let sp := if Spec.isRoot t0 pid then jObj (("kind", "ok") :: jParent none)
-      else if dead then nspJ
-      else jObj (("kind", "ok") :: jParent (Spec.parentOf t0 pid me.ctime))
-    return jObj [("model", jOut jParent m), ("spec", sp), ("running", jrun), ("flags", flags), ("closed", Json.bool true)]
+    -- `spec`: the LITERAL reading of the statement (no lowest-PID rule; a dead caller gets NoSuchProcess whatever
+    -- its PID). `spec_stop`: the same with psutil's rule "the lowest listed PID has no parent" (region of finding
+    -- C05-lowest-pid-parent = where the two differ). `spec_found`: …and the stop answering BEFORE the identity
+    -- check (region of finding C05-recycled-lowest-pid = where it differs from `spec_stop`).
+    let sp := if dead then nspJ else jObj (("kind", "ok") :: jParent (Spec.parentLit t0 pid me.ctime))
+    let ss := if dead then nspJ else jObj (("kind", "ok") :: jParent (Spec.parentOf t0 pid me.ctime))
+    let sf := if Spec.isRoot t0 pid then jObj (("kind", "ok") :: jParent none) else ss
+    return jObj [("model", jOut jParent m), ("spec", sp), ("spec_stop", ss), ("spec_found", sf), ("running", jrun),
+      ("flags", flags), ("closed", Json.bool true)]
   else if call == "parents" then
     let m := (parents cfg ps t0 me).2
-    let sp := if Spec.isRoot t0 pid then jObj (("kind", "ok") :: jChain [])
-      else if dead then nspJ
+    let sp := if dead then nspJ
+      else jObj (("kind", "ok") :: jChain (Spec.chainLitList t0 (t0.length + 1) [pid] pid me.ctime))
+    let ss := if dead then nspJ
       else jObj (("kind", "ok") :: jChain (Spec.chainList t0 (t0.length + 1) [pid] pid me.ctime))
-    return jObj [("model", jOut jChain m), ("spec", sp), ("running", jrun), ("flags", flags), ("closed", Json.bool true)]
+    let sf := if Spec.isRoot t0 pid then jObj (("kind", "ok") :: jChain []) else ss
+    return jObj [("model", jOut jChain m), ("spec", sp), ("spec_stop", ss), ("spec_found", sf), ("running", jrun),
+      ("flags", flags), ("closed", Json.bool true)]
   else .error s!"unknown call {call}"
 
 def handleStat (j : Json) : R Json := do
@@ -293,34 +301,40 @@ def handleDyn (j : Json) : R Json := do
         | _ => false
       if call == "parent" then
         let m := (parentX cfg ps (W 0) me os).2.2.2
-        let spv := Spec.parentOfW cfg.rootGuarded (W 0) low pid me.ctime
-        -- silent where an identity check cannot tell (own stat unreadable, same incarnation underneath)
-        let idHidden : Bool := spv != Spec.parentOfW cfg.rootGuarded (Wt 0) low pid me.ctime
-        let sp : Json := if cached then Json.null
-          else if pid == low then jObj (("kind", "ok") :: jParent none)
+        -- one reading of the statement: the value in the worlds as the code sees them (`spv`) and with every
+        -- identity check reading the truth (`spt`); silent where an identity check cannot tell (own stat
+        -- unreadable, same incarnation underneath) and about WHICH exception an unreadable stat file produces
+        let rd (spv spt : Spec.PRes) : Json :=
+          if cached then Json.null
           else if flagsDead then nspJ
-          else if idHidden then Json.null
+          else if spv != spt then Json.null
           else match spv with
             | .none => jObj (("kind", "ok") :: jParent none)
             | .some q => jObj (("kind", "ok") :: jParent (some q))
             | .nsp p => jExc "NoSuchProcess" (some p)
             | .denied _ => Json.null
-        return jObj [("model", jXOut jParent m), ("spec", sp), ("closed", Json.bool true),
-          ("cached", Json.bool cached)]
+        -- literal / with the lowest-PID stop after the identity check / with the stop first (see handleTree)
+        let sp := rd (Spec.parentLitW (W 0) pid me.ctime) (Spec.parentLitW (Wt 0) pid me.ctime)
+        let ss := rd (Spec.parentOfW true (W 0) low pid me.ctime) (Spec.parentOfW true (Wt 0) low pid me.ctime)
+        let sf := if cached then Json.null else if pid == low then jObj (("kind", "ok") :: jParent none) else ss
+        return jObj [("model", jXOut jParent m), ("spec", sp), ("spec_stop", ss), ("spec_found", sf),
+          ("closed", Json.bool true), ("cached", Json.bool cached)]
       else
         let fuel := 4096 + 2
         let m := (parentsX cfg fuel ps W me os).2
-        let spv := Spec.chainDyn cfg.rootGuarded W low fuel 0 [pid] pid me.ctime []
-        let spt := Spec.chainDyn cfg.rootGuarded Wt low fuel 0 [pid] pid me.ctime []
-        let idHidden : Bool := (jXOut jChain spv).compress != (jXOut jChain spt).compress
-        let sp : Json := if cached then Json.null
-          else if pid == low then jObj (("kind", "ok") :: jChain [])
+        let rd (spv spt : XOut (List Row)) : Json :=
+          if cached then Json.null
           else if flagsDead then nspJ
-          else if idHidden then Json.null
+          else if (jXOut jChain spv).compress != (jXOut jChain spt).compress then Json.null
           else if silent spv then Json.null
           else jXOut jChain spv
-        return jObj [("model", jXOut jChain m), ("spec", sp), ("closed", Json.bool true),
-          ("cached", Json.bool cached)]
+        let sp := rd (Spec.chainLitDyn W fuel 0 [pid] pid me.ctime []) (Spec.chainLitDyn Wt fuel 0 [pid] pid me.ctime [])
+        let ss := rd (Spec.chainDyn true W low fuel 0 [pid] pid me.ctime [])
+                     (Spec.chainDyn true Wt low fuel 0 [pid] pid me.ctime [])
+        let sf := if cached then Json.null else if pid == low then jObj (("kind", "ok") :: jChain []) else
+          rd (Spec.chainDyn false W low fuel 0 [pid] pid me.ctime []) (Spec.chainDyn false Wt low fuel 0 [pid] pid me.ctime [])
+        return jObj [("model", jXOut jChain m), ("spec", sp), ("spec_stop", ss), ("spec_found", sf),
+          ("closed", Json.bool true), ("cached", Json.bool cached)]
   else .error s!"unknown call {call}"
 
 def handle (_ : Unit) (j : Json) : R (Unit × Json) := do
